@@ -182,6 +182,9 @@ func (s *Store) ReplaceBundle(b bpv7.Bundle) error {
 }
 
 // Delete a BundleItem, represented by the "scrubbed" BundleID.
+//
+// The index entry is removed before the BundleParts' files. If the process dies in between, unreferenced files are
+// left behind, which will be overwritten by a later Push, instead of an index entry referring to missing files.
 func (s *Store) Delete(bid bpv7.BundleID) error {
 	s.mutex.Lock()
 	defer s.mutex.Unlock()
@@ -190,6 +193,11 @@ func (s *Store) Delete(bid bpv7.BundleID) error {
 		log.WithFields(log.Fields{
 			"bundle": bid,
 		}).Info("Store deletes BundleItem")
+
+		verifPoint("delete:before-index")
+		if err := s.bh.Delete(bi.Id, BundleItem{}); err != nil {
+			return err
+		}
 
 		for _, bp := range bi.Parts {
 			verifPoint("delete:before-remove")
@@ -202,9 +210,6 @@ func (s *Store) Delete(bid bpv7.BundleID) error {
 			}
 			verifPoint("delete:file-removed")
 		}
-
-		verifPoint("delete:before-index")
-		return s.bh.Delete(bi.Id, BundleItem{})
 	}
 
 	return nil
